@@ -132,10 +132,12 @@ func c20HugeZeros(c *hx.Ctx, r *hx.RNG) {
 func c20Case(c *hx.Ctx, r *hx.RNG, idx int64) {
 	if m := idx % 2500000; m == 9 || m == 41 { // (same shard: precision 0, then a small explicit precision)
 		c20Huge(c, r, m == 41)
+		releaseHuge()
 		return
 	}
 	if idx%2500000 == 25 { // (same shard as the case above: one after the other)
 		c20HugeZeros(c, r)
+		releaseHuge()
 		return
 	}
 	switch k := r.Intn(100); {
